@@ -8,6 +8,7 @@ from slices_core import N
 E = G.enc
 def call(f, args): return (" ".join(args) + " " if args else "") + f + "ㅎ" + E(len(args))
 def res(o): return decode_v(o.split("\t")[0])
+def NZ(t): return re.sub(r"(?<![\w.])-0\.0(?![\w.])", "0.0", t)          # a printed negative zero read as zero
 
 # ------------------------------------------------------------------ C06
 MP = 2**61 - 1
@@ -253,7 +254,7 @@ def c11_tower(r, seed, tier, model_ok):
         return call("ㅁㄹ", [num(d), num(d), num(d)])
     cases = [dict(text=prog(), floats=True, trace=False) for _ in range(n)]
     a = impl_run(cases)
-    floats = sum(1 for x in a if "F" in res(x) and x.startswith("V"))
+    floats = sum(1 for x in a if x.startswith("V") and vlib._FL.search(res(x)))
     # implementation-only: ㅈ is a strict total order consistent with ㄴ on finite reals
     fin = []
     for _ in range(N(tier, 800, 15000)):
@@ -280,12 +281,12 @@ def c11_tower(r, seed, tier, model_ok):
         if ta == E(i) and td == E(j): td = dy(j, e2) if e2 else f"({E(j)} ㅅㅅㅎㄴ)"      # at least one real operand
         q = Fraction(int(fa / fd)) if fa / fd >= 0 else -Fraction(int(-fa / fd)); rem = fa - q * fd
         dl.append(dict(text=call("ㅁㄹ", [call("ㄴㄴ", [ta, td]), call("ㄴㅁ", [ta, td])]), floats=True, trace=False))
-        dw.append(f"V [{vlib.canon_float(float(q))}, {vlib.canon_float(float(rem))}]".replace("F-0", "F0"))
+        dw.append(f"V [{float(q) + 0.0!r}, {float(rem) + 0.0!r}]")
     da = impl_run(dl)
     if model_ok:
         db = model_run(dl); ddist, dbad = compare(dl, da, db, fields=("res",))
         r.slice("real_division_vs_model", len(dl), len({c["text"] for c in dl}), [dl[1]["text"]], dict(outcomes=dict(ddist)), "the same ㄴㄴ / ㄴㅁ cases vs the model's transcription of CPython's float_divmod / C fmod (bit-exact)", dbad)
-    bad3 = [dict(program=c["text"], impl=res(o).replace("F-0", "F0")[:120], model="quotient truncated toward zero, remainder with the dividend's sign: " + w, which=["real-division-law"]) for c, o, w in zip(dl, da, dw) if res(o).replace("F-0", "F0") != w]
+    bad3 = [dict(program=c["text"], impl=NZ(res(o))[:120], model="quotient truncated toward zero, remainder with the dividend's sign: " + w, which=["real-division-law"]) for c, o, w in zip(dl, da, dw) if NZ(res(o)) != w]
     r.slice("real_division_law", len(dl), len({c["text"] for c in dl}), [dl[0]["text"]], dict(), "ㄴㄴ / ㄴㅁ with at least one real operand on exactly representable dyadic values, all sign combinations, vs exact rational arithmetic", bad3[:40])
     r.slice("order_laws", len(progs), len(set(progs)), [progs[0]], dict(triples=len(fin)), "implementation-only: ㅈ irreflexive, transitive, trichotomous with ㄴ on mixed integer / real operands", bad2[:40])
     if model_ok:
@@ -656,6 +657,26 @@ def c18_print(r, seed, tier, model_ok):
         def nrm(f): f = list(f); f[0] = "V " + ",".join(str(ord(ch)) for ch in norm_dicts(decode_v(f[0])[2:])) if f[0].startswith("V ") else f[0]; return f
         dist, bad2 = compare(ic2, ia2, b, fields=("res",), norm=nrm)
         r.slice("printing_vs_model", len(ic2), len({c["text"] for c in ic2}), [ic2[-1]["text"]], dict(outcomes=dict(dist)), "integer re-read and dictionary printing programs vs the extracted model's formatter", bad2)
+        # reals as TEXT, both directions, vs FloatText.v (repr_float: the shortest digits that read back, CPython's layout; parse_float_text: the
+        # double nearest to the decimal): exactly built doubles printed (alone, nested, as ㅁㅈ strings), and decimal texts of every shape read by ㅅㅅ
+        from slices_world import st as strlit
+        fcs = [dict(c, floats=False) for c, w in zip(cases, want) if w is not None and "ㅈㅅㅎㄴ" not in c["text"] and "ㅅㅅㅎㄴ" in c["text"]][:N(tier, 500, 6000)]
+        Rf = random.Random(seed * 7919 + 0xC18 + 33); txts = []
+        for _ in range(N(tier, 400, 6000)):
+            x = Rf.choice([1, -1]) * Rf.randrange(1, 2**53) * 2.0 ** Rf.choice([Rf.randrange(-1074, 960), Rf.randrange(-70, 20), -52, 0]); k = Rf.random()
+            if x in (math.inf, -math.inf): continue
+            t_ = repr(x) if k < .25 else f"{x:.{Rf.randrange(0, 25)}e}" if k < .5 else (f"{x:.{Rf.randrange(0, 30)}f}" if 1e-30 < abs(x) < 1e40 else repr(x)) if k < .65 else \
+                 "  " + repr(x).upper() + "\n" if k < .72 else repr(x).replace("e", "E") if k < .78 else repr(x)[:-1] + str(Rf.randrange(10)) * Rf.randrange(1, 30) if k < .9 else repr(x) + Rf.choice(["e", "e+", ".", "x", " 1", "e1.5", "_1", "f"])
+            txts.append(t_)
+        txts += ["inf", "-Infinity", "nan", "+NaN", "1e400", "-1e-400", "1e99999999999999999999", "1e-99999999999999999999", "0.0", "-0", ".5", "5.", "1.e3", ".", "e5", "1e", "--1", "1 2", "0x10", "", "  ", "00012.500",
+                 "2.4703282292062327208e-324", "2.4703282292062327209e-324", "1" + "0" * 400, "0." + "0" * 400 + "1", "9007199254740993", "9007199254740992.5", "9007199254740994.50000000000000000000001",
+                 "1.7976931348623158e308", "1.797693134862315807e308", "1.797693134862315808e308", "infinit", "nan1", "-.e1", "-.5e-0", "+.5", "1e+05", "1E-05"]
+        for t_ in txts:
+            k = Rf.random(); rd = f"({strlit(t_)} ㅅㅅㅎㄴ)"
+            fcs.append(dict(text=rd if k < .5 else f"({strlit(t_)} {E(10)} ㅅㅅㅎㄷ)" if k < .6 else f"{rd} ㅁㅈㅎㄴ" if k < .8 else f"{rd} ((ㄱㅇㄱ) ㅎ) ㅅㄷㅎㄷ", trace=False, floats=False))
+        fa = impl_run(fcs); fb = model_run(fcs, tlimit=20); fdist, fbad = compare(fcs, fa, fb, fields=("res",))
+        r.slice("real_text_vs_model", len(fcs), len({c["text"] for c in fcs}), [fcs[0]["text"], fcs[-1]["text"]], dict(outcomes=dict(fdist), read_texts=len(txts)),
+                "printed reals (exactly built doubles, alone / nested / as strings) and decimal texts read by ㅅㅅ (every layout, long digit strings, half-way cases, subnormals, overflow, malformed) vs FloatText.repr_float / parse_float_text", fbad)
         # complex numbers: each part prints as an INTEGER when it is close to one (math.isclose with relative tolerance 1e-9, absolute 1e-16), a zero
         # real part is left out, an imaginary part of magnitude 1 prints as "i" - parts built exactly as m * 2^-k: near integers on both sides of
         # either tolerance, halves, huge values, both zeros, infinities; alone, in lists and as dictionary keys
